@@ -77,6 +77,54 @@ fn parse_expr(toks: &[&str], order: &mut Vec<String>) -> Result<(BTreeMap<String
     Ok((terms, constant))
 }
 
+/// the LP format lets an expression continue on the following lines: the objective runs up to the next section
+/// keyword, a row up to its relation and right-hand side; physical lines are joined into logical ones
+fn logical_lines(text: &str) -> Vec<String> {
+    let mut out: Vec<String> = vec![];
+    let mut sec = 0; // 0 other, 1 objective, 2 rows
+    let mut pending = String::new();
+    for raw in text.lines() {
+        let line = raw.trim();
+        if line.is_empty() {
+            continue;
+        }
+        let low = line.to_ascii_lowercase();
+        let keyword = matches!(low.as_str(), "minimize" | "minimise" | "min" | "maximize" | "maximise" | "max" | "subject to" | "st" | "s.t." | "such that" | "bounds" | "bound" | "binary" | "binaries" | "bin" | "general" | "generals" | "gen" | "end");
+        if keyword {
+            if !pending.is_empty() {
+                out.push(std::mem::take(&mut pending));
+            }
+            sec = match low.as_str() {
+                "minimize" | "minimise" | "min" | "maximize" | "maximise" | "max" => 1,
+                "subject to" | "st" | "s.t." | "such that" => 2,
+                _ => 0,
+            };
+            out.push(line.to_string());
+            continue;
+        }
+        match sec {
+            1 => {
+                pending.push(' ');
+                pending.push_str(line);
+            }
+            2 => {
+                pending.push(' ');
+                pending.push_str(line);
+                let toks: Vec<&str> = pending.split_whitespace().collect();
+                let complete = toks.len() >= 2 && matches!(toks[toks.len() - 2], "<=" | ">=" | "=" | "=<" | "=>" | "<" | ">") && parse_num(toks[toks.len() - 1]).is_some();
+                if complete {
+                    out.push(std::mem::take(&mut pending));
+                }
+            }
+            _ => out.push(line.to_string()),
+        }
+    }
+    if !pending.is_empty() {
+        out.push(pending);
+    }
+    out
+}
+
 pub fn read_lp(text: &str) -> Result<LpFile, String> {
     let mut f = LpFile::default();
     #[derive(PartialEq)]
@@ -91,7 +139,8 @@ pub fn read_lp(text: &str) -> Result<LpFile, String> {
     }
     let mut sec = Sec::None;
     let mut seen_obj = false;
-    for raw in text.lines() {
+    let joined = logical_lines(text);
+    for raw in joined.iter() {
         let line = raw.trim();
         if line.is_empty() {
             continue;
@@ -406,10 +455,39 @@ fn naming_case(i: u64) -> LmSpec {
     }
 }
 
+/// family W: wide models. n variables with short or long names; every row and the objective mention every
+/// variable, so the rendered expressions run to hundreds or thousands of characters
+const WIDE_N: [usize; 8] = [8, 12, 20, 30, 36, 40, 64, 120];
+fn wide_size() -> u64 {
+    WIDE_N.len() as u64 * 3 * 2 * 2
+}
+fn wide_case(i: u64) -> LmSpec {
+    let mut d = Digits(i);
+    let n = *d.of(&WIDE_N);
+    let naming = d.pick(3);
+    let coef_style = d.pick(2);
+    let sense = if d.pick(2) == 0 { Sense::Min } else { Sense::Max };
+    let name = |k: usize| match naming {
+        0 => format!("x{k}"),
+        1 => format!("production_of_item_{k:03}"),
+        _ => format!("$max_{k}_select_{}", k % 3),
+    };
+    let coef = |r: usize, k: usize| -> f64 {
+        if coef_style == 0 {
+            ((k * 7 + r * 3) % 19) as f64 - 9.0 + if (k + r) % 19 == 9 { 20.0 } else { 0.0 }
+        } else {
+            (((k * 5 + r) % 13) as f64 + 1.0) * 1.25 * if k % 2 == 0 { -1.0 } else { 1.0 }
+        }
+    };
+    let vars: Vec<(String, Dom)> = (0..n).map(|k| (name(k), if k % 4 == 3 { Dom::Int(0, 9) } else { Dom::NonNeg })).collect();
+    let rows = (0..3).map(|r| Row { coef: (0..n).map(|k| coef(r, k)).collect(), rel: crate::lm::RELS[r], rhs: 10.0 * (r as f64 + 1.0), name: if r == 1 { String::new() } else { format!("wide_{r}") } }).collect();
+    LmSpec { vars, rows, obj: (0..n).map(|k| coef(3, k)).collect(), offset: 2.5, sense }
+}
+
 pub fn run(mut run: Run) -> ! {
     crate::core::silence_panics();
-    run.rule = "every member of finite LinearModel families (coefficient alphabet incl. -0.0, 1e-7, 1e9, 1/3 in objective/rows/rhs/offset; 11 domain forms; row-naming and variable-naming menus; min/max/satisfy; no-row models; plus the linear models compiled from the C02 objective family and the C01 constraint family) is exported with to_lp_format() and read back by an independent reader; distinct = canonical model text; non-trivial = export was readable".into();
-    run.assume("independent reader of the CPLEX-LP subset (sections, optional row labels, signed terms with optional coefficients, objective constant, default bounds [0,+inf), free, +-infinity, Binary, General, End); numbers must round-trip exactly (Rust prints shortest round-trip decimals)");
+    run.rule = "every member of finite LinearModel families (coefficient alphabet incl. -0.0, 1e-7, 1e9, 1/3 in objective/rows/rhs/offset; 11 domain forms; row-naming and variable-naming menus; min/max/satisfy; no-row models; wide models of 8..120 variables with short, 20-character and auxiliary-style names whose rows and objective mention every variable; plus the linear models compiled from the C02 objective family and the C01 constraint family) is exported with to_lp_format() and read back by an independent reader; distinct = canonical model text; non-trivial = export was readable".into();
+    run.assume("independent reader of the CPLEX-LP subset (sections, optional row labels, signed terms with optional coefficients, objective constant, default bounds [0,+inf), free, +-infinity, Binary, General, End; expressions may continue over several lines); numbers must round-trip exactly (Rust prints shortest round-trip decimals)");
     run.assume("a variable that occurs nowhere in the file (all-zero coefficients, default range) is tolerated and counted");
     for fam in families(run.quick()) {
         let f2 = fam.clone();
@@ -418,6 +496,10 @@ pub fn run(mut run: Run) -> ! {
             check_model(&spec, l);
         });
     }
+    run.family("W-wide-rows", wide_size(), |i, l| {
+        let spec = wide_case(i);
+        check_model(&spec, l);
+    });
     run.family("L4-naming", naming_size(), |i, l| {
         let spec = naming_case(i);
         check_model(&spec, l);
